@@ -21,11 +21,11 @@ ALLC = ["unrestricted", "restricted", "unknown", "absent"]
 ALLF = ["default", "b2", "unlisted"]
 
 INVARIANTS = ["TypeOK", "NoCrossWire", "OneOfferPerPoll", "OnePollPerOffer", "ClaimsDisjoint", "RelayURLRight",
-              "UnlistedNeverMatched", "NATCompatible", "NoGhost", "GaugeIsIdmap", "HeapsInIdmap"]
+              "UnlistedNeverMatched", "NATCompatible", "NoGhost", "GaugeIsIdmap", "HeapsInIdmap", "GaugeCountsHeaps"]
 # which property owns which invariant / which event kind of a rejected trace
 INV_OWNER = {"NoCrossWire": "C02", "OneOfferPerPoll": "C02", "OnePollPerOffer": "C02", "ClaimsDisjoint": "C02",
              "RelayURLRight": "C02", "UnlistedNeverMatched": "C02", "NATCompatible": "C03", "MatchRight": "C03",
-             "NoGhost": "C04", "GaugeIsIdmap": "C04", "HeapsInIdmap": "C04", "TypeOK": "C04"}
+             "NoGhost": "C04", "GaugeIsIdmap": "C04", "HeapsInIdmap": "C04", "GaugeCountsHeaps": "C04", "TypeOK": "C04"}
 EV_OWNER = {"add": "C03", "c.match": "C03",
             "c.offer": "C02", "c.sent": "C02", "w.offer": "C02", "w.forwarded": "C02", "p.got": "C02", "p.resp": "C02",
             "c.answer": "C02", "c.resp": "C02", "a.lookup": "C02",
@@ -38,7 +38,7 @@ def q(xs):
     return ", ".join('"%s"' % x for x in xs)
 
 
-def cfg_text(P, C, A, strict, noties, loads, pnat, cnat, fp, unk, mode, props=(), d1=None, d2=None, pt=2, ct=2, bridges=("default", "b2")):
+def cfg_text(P, C, A, strict, noties, loads, pnat, cnat, fp, unk, mode, props=(), d1=None, d2=None, pt=2, ct=2, bridges=("default", "b2"), dup=False):
     d1 = D1_FIXED if d1 is None else d1
     d2 = D2_FIXED if d2 is None else d2
     t = ["CONSTANTS",
@@ -47,7 +47,8 @@ def cfg_text(P, C, A, strict, noties, loads, pnat, cnat, fp, unk, mode, props=()
          "  NoTies = %s" % ("TRUE" if noties else "FALSE"), "  StrictTimers = %s" % ("TRUE" if strict else "FALSE"),
          "  D1Fixed = %s" % ("TRUE" if d1 else "FALSE"), "  D2Fixed = %s" % ("TRUE" if d2 else "FALSE"),
          "  PNatSet = {%s}" % q(pnat), "  CNatSet = {%s}" % q(cnat), "  FpSet = {%s}" % q(fp),
-         "  UnknownTargets = %s" % ("TRUE" if unk else "FALSE"), "  Bridges = {%s}" % q(bridges), "  None = None"]
+         "  UnknownTargets = %s" % ("TRUE" if unk else "FALSE"), "  Bridges = {%s}" % q(bridges),
+         "  DupSids = %s" % ("TRUE" if dup else "FALSE"), "  None = None"]
     if mode == "mc":
         t += ["SPECIFICATION Spec", "VIEW view", "INVARIANTS " + " ".join(INVARIANTS), "PROPERTIES MatchRight " + " ".join(props)]
     elif mode == "gen":
@@ -70,6 +71,8 @@ def mc_configs(tier):
                              props=["EveryRequestCompletes"])
     c["MC_core"] = cfg_text(names("p", 2), names("c", 2), names("a", 2), False, True, [0, 8], ["unrestricted"], ["restricted"],
                             ["default", "b2"], True, "mc")
+    c["MC_repoll"] = cfg_text(names("p", 2), names("c", 1), names("a", 1), False, True, [0, 8], ["unrestricted"], ["restricted"],
+                              ["default"], False, "mc", props=["EveryRequestCompletes"], dup=True)
     c["MC_match1"] = cfg_text(names("p", 3), names("c", 1), [], False, False, [0, 8], ALLP, ALLC, ["default"], False, "mc")
     if tier == "thorough":
         c["MC_match2"] = cfg_text(names("p", 2), names("c", 2), [], False, False, [0, 8], ALLP, ALLC, ["default"], False, "mc")
@@ -106,6 +109,8 @@ def gen_configs():
     g["Gen_small"] = (cfg_text(names("p", 1), names("c", 1), names("a", 1), True, True, L, ALLP + ["absent"], ALLC, ALLF, True, "gen"), 40)
     g["Gen_core"] = (cfg_text(names("p", 2), names("c", 2), names("a", 2), True, True, L, ALLP, ALLC, ["default", "b2"], True, "gen"), 60)
     g["Gen_core_b2only"] = (cfg_text(names("p", 2), names("c", 2), names("a", 2), True, True, L, ALLP, ALLC, ALLF, True, "gen", bridges=["b2"]), 60)
+    g["Gen_repoll"] = (cfg_text(names("p", 3), names("c", 2), names("a", 2), True, True, L, ["unrestricted", "restricted"],
+                                ["restricted", "unrestricted"], ["default"], False, "gen", dup=True), 60)
     g["Gen_match"] = (cfg_text(names("p", 3), names("c", 2), names("a", 1), True, True, L, ALLP, ALLC, ["default"], False, "gen"), 60)
     g["Gen_big"] = (cfg_text(names("p", 3), names("c", 3), names("a", 3), True, True, L, ["unrestricted", "restricted"],
                              ["restricted", "unrestricted", "absent"], ["default", "b2"], True, "gen"), 90)
@@ -144,8 +149,25 @@ def generate_replays(chk, counts, seed):
             steps = [s for s in b if s[0] != "Finished"]
             if steps:
                 # model load L stands for the self-reported count L - 5 (order preserving): -5, 0, 3, 8, 15, 16, 23, 24
-                steps = [[st[0], st[1], st[2], st[3] - 5] if st[0] == "ProxyRegister" else st for st in steps]
+                sid_of, conv = {}, []
+                for st in steps:
+                    if st[0] == "ProxyRegister":
+                        sid_of[st[1]] = st[4]
+                        st = [st[0], st[1], st[2], st[3] - 5, st[4]]
+                    elif st[0] == "ProxyRepoll":      # ProxyRepoll(p, nat, load, q): p polls with q's session id
+                        sid_of[st[1]] = sid_of.get(st[4], st[4])
+                        st = ["ProxyRegister", st[1], st[2], st[3] - 5, sid_of[st[1]]]
+                    conv.append(st)
+                steps = conv
                 sc = to_scenario(len(scen) + 1, steps, rng)
+                if name == "Gen_repoll":
+                    if not any(st[0] == "ProxyRegister" and st[4] != st[1] for st in steps):
+                        continue
+                    # the hooks name a snowflake by its session id, so executions with a re-used id cannot be
+                    # attributed event by event: they run un-gated and only their outcome is judged (every
+                    # request returns, nothing is left behind - what MC_repoll establishes for the model)
+                    sc["steps"] = [st for st in steps if st[0] in ("ProxyRegister", "ClientMatch", "AnswerLookup", "Tick")]
+                    sc["mode"], sc["novalidate"] = "herd", True
                 if name.endswith("_b2only"):
                     sc["bridges"] = ["b2"]
                 scen.append(sc)
@@ -426,8 +448,8 @@ def pipeline(chk, owner, tier, seed, counts=None, herds=None, do_mc=True, mc_onl
         if not model_check(chk, tier, only=mc_only):
             return
     q_ = tier == "quick"
-    counts = counts or ({"Gen_small": 200, "Gen_core": 500, "Gen_core_b2only": 150, "Gen_match": 300, "Gen_big": 350} if q_
-                        else {"Gen_small": 800, "Gen_core": 4000, "Gen_core_b2only": 800, "Gen_match": 2000, "Gen_big": 4000})
+    counts = counts or ({"Gen_small": 200, "Gen_core": 500, "Gen_core_b2only": 150, "Gen_match": 300, "Gen_big": 350, "Gen_repoll": 200} if q_
+                        else {"Gen_small": 800, "Gen_core": 4000, "Gen_core_b2only": 800, "Gen_match": 2000, "Gen_big": 4000, "Gen_repoll": 1500})
     scen = generate_replays(chk, counts, seed)
     nh = herds if herds is not None else (90 if q_ else 900)
     scen += generate_herds(nh, seed, len(scen) + 1)
@@ -476,9 +498,15 @@ def pipeline(chk, owner, tier, seed, counts=None, herds=None, do_mc=True, mc_onl
             diverged += 1
         if end[0]["pending"]:
             if owner == "C04":
-                chk.violation("C04/" + hang_signature(evs, end[0]["pending"]),
+                chk.violation("C04/" + hang_signature(evs, end[0]["pending"]) + ("/repolled-sid" if by_id[sid].get("novalidate") else ""),
                               "requests %s never returned (fake clock advanced 25 s past the last step)" % end[0]["pending"],
                               {"scenario": by_id[sid], "events": evs})
+            continue
+        if by_id[sid].get("novalidate"):
+            e = end[0]
+            if owner == "C04" and (e["avail"] != 0 or e["gauge"] != 0 or e["heaps"] != 0 or any(k != "noproxies" for k in e["fresh"])):
+                chk.violation("C04/ghost/repolled-sid", "registrations left behind after every request returned: /debug %s, gauge %s, heaps %s, fresh clients %s" % (
+                    e["avail"], e["gauge"], e["heaps"], e["fresh"]), {"scenario": by_id[sid], "events": evs})
             continue
         ok_sc[sid] = evs
     missing = set(by_id) - set(by_sc)
